@@ -62,7 +62,13 @@ func (g geom) String() string { return g.typ + ":" + g.tree() }
 
 func deg(n int64) float64 { return float64(n) / 1e7 }
 
-func coordinate(p pos) geojson.Coordinate { return geojson.Coordinate{Lat: deg(p.lat), Lng: deg(p.lng)} }
+// atom <-> float64: E7 integers by default; the `bits` op switches both to IEEE bit patterns
+var toFloat = deg
+var fromFloat = e7
+
+func coordinate(p pos) geojson.Coordinate {
+	return geojson.Coordinate{Lat: toFloat(p.lat), Lng: toFloat(p.lng)}
+}
 
 func coordinates(l []pos) []geojson.Coordinate {
 	cs := make([]geojson.Coordinate, len(l))
@@ -103,7 +109,9 @@ func (g geom) goValue() geojson.Coordinates {
 
 func e7(x float64) int64 { return int64(math.Round(x * 1e7)) }
 
-func coordTree(c geojson.Coordinate) string { return fmt.Sprintf("[%d,%d]", e7(c.Lat), e7(c.Lng)) }
+func coordTree(c geojson.Coordinate) string {
+	return fmt.Sprintf("[%d,%d]", fromFloat(c.Lat), fromFloat(c.Lng))
+}
 
 // renderGo renders a decoded geojson.Geometry in the model's form. The type name is that of the Go value
 // held in Coordinates; a Type string that disagrees with it is appended.
@@ -377,6 +385,98 @@ func geomOp(c *hx.Ctx, g geom) {
 	c.Op("geom "+g.String(), ans)
 }
 
+// ---- full-precision coordinates ------------------------------------------------------------------
+//
+// `bits <geometry>`: the atoms are IEEE-754 bit patterns (printed as int64) of arbitrary finite float64
+// coordinates; the geometry goes through json.Marshal and both decoders and must come back bit for bit
+// (Go's shortest float formatting round-trips every finite float64).
+
+var fixedFloats = []float64{0.1 + 0.2, 1e-9, -1e-9, 51.123456789012, -0.123456789012345, 51.535360200000004, 4.9e-8, 5.1e-8,
+	1e-7 / 3, 5e-324, 2.2250738585072014e-308, 1e-300, math.Copysign(0, -1), 0, 1.0000000000000002, 89.99999999999999,
+	-179.99999999999997, 1e21, 1e300, math.MaxFloat64, 0.30000000000000004, 123456.7, 1.5e-7}
+
+func randFloat(c *hx.Ctx) float64 {
+	r := c.Rand
+	switch r.Intn(6) {
+	case 0:
+		c.Note("bits:fixed-value")
+		return fixedFloats[r.Intn(len(fixedFloats))]
+	case 1: // any finite bit pattern
+		for {
+			x := math.Float64frombits(r.Uint64())
+			if !math.IsNaN(x) && !math.IsInf(x, 0) {
+				c.Note("bits:any-finite-pattern")
+				return x
+			}
+		}
+	case 2: // tiny magnitudes
+		c.Note("bits:tiny")
+		return (float64(r.Uint64()>>11) / (1 << 53)) * math.Pow(10, -float64(5+r.Intn(12))) * float64(1-2*r.Intn(2))
+	case 3: // an E7 value plus noise in the last places
+		c.Note("bits:e7-plus-noise")
+		return math.Nextafter(float64(int64(r.Uint64()%1800000000)-900000000)/1e7, float64(2*r.Intn(2)-1)*1000)
+	default: // full 53-bit mantissa inside the lat/lng range
+		c.Note("bits:random-mantissa-degrees")
+		return (float64(r.Uint64()>>11)/(1<<53))*360 - 180
+	}
+}
+
+func bitsPos(c *hx.Ctx) pos {
+	return pos{int64(math.Float64bits(randFloat(c))), int64(math.Float64bits(randFloat(c)))}
+}
+
+func bitsLine(c *hx.Ctx, n int) []pos {
+	l := make([]pos, n)
+	for i := range l {
+		l[i] = bitsPos(c)
+	}
+	return l
+}
+
+func bitsOp(c *hx.Ctx) {
+	r := c.Rand
+	types := []string{"Point", "MultiPoint", "LineString", "MultiLineString", "Polygon", "MultiPolygon"}
+	g := geom{typ: types[r.Intn(6)]}
+	rings := func() [][]pos {
+		rs := make([][]pos, 1+r.Intn(3))
+		for i := range rs {
+			rs[i] = bitsLine(c, 1+r.Intn(4))
+		}
+		return rs
+	}
+	switch g.typ {
+	case "Point":
+		g.pt = bitsPos(c)
+	case "MultiPoint", "LineString":
+		g.line = bitsLine(c, 1+r.Intn(5))
+	case "MultiLineString", "Polygon":
+		g.rings = rings()
+	default:
+		g.polys = make([][][]pos, 1+r.Intn(2))
+		for i := range g.polys {
+			g.polys[i] = rings()
+		}
+	}
+	runBits(c, g)
+}
+
+func fbits(x float64) int64 { return int64(math.Float64bits(x)) }
+
+func runBits(c *hx.Ctx, g geom) {
+	toFloat = func(n int64) float64 { return math.Float64frombits(uint64(n)) }
+	fromFloat = func(x float64) int64 { return int64(math.Float64bits(x)) }
+	defer func() { toFloat, fromFloat = deg, e7 }()
+	ans := hx.Recover(func() string {
+		text, err := json.Marshal(geojson.GeometryFromCoordinates(g.goValue()))
+		if err != nil {
+			return "marshal-err"
+		}
+		return decodeBoth(text)
+	})
+	c.Op("bits "+g.String(), ans)
+	c.Note("bits:" + g.typ)
+}
+
 // writeJSON renders a tree of E7 integers as JSON with decimal numbers
 func treeJSON(t string) string {
 	var sb strings.Builder
@@ -635,6 +735,9 @@ func corpus(c *hx.Ctx) {
 	// fixed: geojson.Unmarshal rejected a bare MultiLineString
 	geomOp(c, geom{typ: "MultiLineString", rings: [][]pos{{p1, p2}, {p2, p3, p1}}})
 	geomOp(c, geom{typ: "Point", pt: pos{1, -1}})
+	// seeded change C32-2: coordinates that are not multiples of 1e-7 degrees must survive the round trip
+	runBits(c, geom{typ: "LineString", line: []pos{{fbits(51.123456789012), fbits(0.1 + 0.2)}, {fbits(1e-9), fbits(-4.9e-8)}, {fbits(math.Copysign(0, -1)), fbits(5e-324)}}})
+	runBits(c, geom{typ: "MultiPolygon", polys: [][][]pos{{{{fbits(51.535360200000004), fbits(-0.12345678901)}, {fbits(1e-7 / 3), fbits(179.99999999999997)}}}}})
 	c.NonTrivial()
 }
 
@@ -642,7 +745,7 @@ func main() {
 	_ = sort.Strings
 	hx.Main(hx.Family{
 		Name: "c32",
-		Rule: "per case: 3 geom ops (marshal + both decoders) on random geometries of the six types, 2 parse ops on harness-written JSON (wrong arity, depth, type), one feature-collection round trip and one import of 1-6 features (star-shaped polygons with 0-3 holes, random orientation, rings closed 3/4 of the time; 1/12 of the features carry a reserved property key; rare degenerate line strings / empty rings) into an empty world, every index read back. Coordinates are E7 integers. Non-trivial = the import holds a polygon with a hole and at least 3 features; distinct = by hash of the op text",
+		Rule: "per case: 3 geom ops (marshal + both decoders) on random geometries of the six types, 2 bits ops (full-precision float64 coordinates - random mantissas, any finite bit pattern, tiny values, E7 values plus last-place noise, 0.1+0.2, -0, subnormals - compared by math.Float64bits after the JSON round trip), 2 parse ops on harness-written JSON (wrong arity, depth, type), one feature-collection round trip and one import of 1-6 features (star-shaped polygons with 0-3 holes, random orientation, rings closed 3/4 of the time; 1/12 of the features carry a reserved property key; rare degenerate line strings / empty rings) into an empty world, every index read back. Coordinates are E7 integers. Non-trivial = the import holds a polygon with a hole and at least 3 features; distinct = by hash of the op text",
 		Quick:    2500,
 		Thorough: 40000,
 		Corpus:   corpus,
@@ -653,6 +756,8 @@ func main() {
 			}
 			parseOp(c)
 			parseOp(c)
+			bitsOp(c)
+			bitsOp(c)
 			mk := func(n int, weird bool) []feature {
 				fs := make([]feature, n)
 				for i := range fs {
